@@ -221,4 +221,21 @@ _obligations_c07 = obligations
 
 
 def obligations(ctx, cfg):
-    return _obligations_c07(ctx, cfg) + [TopicActorLoop(ctx, v) for v in ('Delete', 'PublishMessages', 'AttachSubscription', 'RemoveSubscription')]
+    from props.races import RequestTerminates
+    from props.common import ack_id, mk
+    from models_coll import Seq
+    mk_ids = lambda ctx_, p: [Seq([ack_id(ctx_, p.fresh('id'))], 1, 'vec')]
+    mk_mods = lambda ctx_, p: [Seq([mk(ctx_, 'DeadlineModification', ack_id=ack_id(ctx_, p.fresh('id')), new_deadline=Enum('Option', 0, {}))], 1, 'vec')]
+    mk_u16 = lambda ctx_, p: [S(p.fresh('max'), 'u16')]
+    none = lambda ctx_, p: []
+    term = [RequestTerminates(ctx, 'delete', none), RequestTerminates(ctx, 'pull_messages', mk_u16),
+            RequestTerminates(ctx, 'acknowledge_messages', mk_ids), RequestTerminates(ctx, 'modify_ack_deadlines', mk_mods),
+            RequestTerminates(ctx, 'get_info', none)]
+    from props.races import TopicRequestTerminates
+    from models_sync import ArcTok, Opaque
+    from props.common import sym_name
+    term += [TopicRequestTerminates(ctx, 'publish_messages', lambda c, p: [Seq([__import__('props.C08', fromlist=['x']).sym_topic_message(c, p, 0)[0]], 1, 'vec')]),
+             TopicRequestTerminates(ctx, 'attach_subscription', lambda c, p: [ArcTok(p.fresh('s'), 'Subscription')]),
+             TopicRequestTerminates(ctx, 'remove_subscription', lambda c, p: [sym_name(c, p, 'SubscriptionName', 'n')]),
+             TopicRequestTerminates(ctx, 'delete', none)]
+    return _obligations_c07(ctx, cfg) + [TopicActorLoop(ctx, v) for v in ('Delete', 'PublishMessages', 'AttachSubscription', 'RemoveSubscription')] + term
